@@ -1129,6 +1129,10 @@ pub enum Step {
     /// (the exchange itself goes on)
     DropOldest,
     DropNewest,
+    /// the oldest QoS 2 publish still waiting for its PUBREC gets it, only the context runs, and
+    /// the caller drops the future without ever seeing the PUBREC: the PUBREL that is owed goes
+    /// out all the same, and the exchange is in its second phase
+    RecThenDropUnseen,
 }
 
 #[derive(Clone, Copy, Debug, PartialEq, Eq, Serialize, Deserialize)]
@@ -1257,6 +1261,24 @@ pub fn run_c17(case: &C17Case, cut: usize, o: &mut Outcome) -> Option<Failure> {
                 w.reader.feed(rc::encode(&pkt, &rc::Form::short()));
                 settle(&mut w, &plan, false);
                 exs[i].ph = next;
+            }
+            Step::RecThenDropUnseen => {
+                let Some(i) = (0..exs.len()).find(|i| exs[*i].qos == 2 && exs[*i].ph == Ph::AwaitAck && !exs[*i].dropped) else {
+                    continue;
+                };
+                let pid = exs[i].pid;
+                w.reader.feed(rc::encode(&rc::Packet::Pubrec(rc::Ack { pid, ..Default::default() }), &rc::Form::short()));
+                // only the context runs: the PUBREC sits in the future's channel
+                let mut guard = 0;
+                while w.ctx_woken() && guard < 100 {
+                    w.poll_ctx();
+                    guard += 1;
+                }
+                w.drop_op(exs[i].op);
+                exs[i].dropped = true;
+                settle(&mut w, &plan, false);
+                exs[i].ph = Ph::AwaitComp;
+                o.class("pubrel-owed-by-a-future-dropped-before-it-saw-the-pubrec");
             }
         }
     }
@@ -1641,7 +1663,7 @@ pub fn run_c10_resume(steps: &[Step], r1: u16, r2: u16, expired: bool, lost_in_p
                 settle(&mut w, &plan, false);
                 exs[i].ph = next;
             }
-            Step::DropOldest | Step::DropNewest => {}
+            Step::DropOldest | Step::DropNewest | Step::RecThenDropUnseen => {}
         }
     }
     let unacked = exs.iter().filter(|e| e.ph == Ph::AwaitAck).count();
@@ -1849,7 +1871,7 @@ impl Property for C17 {
     fn strategy(tier: Tier) -> BoxedStrategy<C17Case> {
         let s = (
             vec(
-                prop_oneof![6 => Just(Step::Pub1), 8 => Just(Step::Pub2), 6 => Just(Step::AckOldest), 4 => Just(Step::AckNewest), 1 => Just(Step::DropOldest), 1 => Just(Step::DropNewest)],
+                prop_oneof![6 => Just(Step::Pub1), 8 => Just(Step::Pub2), 6 => Just(Step::AckOldest), 4 => Just(Step::AckNewest), 1 => Just(Step::DropOldest), 1 => Just(Step::DropNewest), 2 => Just(Step::RecThenDropUnseen)],
                 1..tier.pick(10, 20),
             ),
             prop_oneof![
